@@ -28,9 +28,26 @@ def lemma(x, y):
     n2 = len(y._bloom)
     assert len(b2) == len(b) and len(b) == n + 20
     assert all(b2[i] == b[i] for i in range(0, n))
-    assert all(b2[n2 + k] == b[n + k] for k in range(0, 8))
-    assert all(b2[n2 + 8 + k] == b[n + 8 + k] for k in range(0, 8))
-    assert all(b2[n2 + 16 + k] == b[n + 16 + k] for k in range(0, 4))
+    assert b2[n2 + 0] == b[n + 0]
+    assert b2[n2 + 1] == b[n + 1]
+    assert b2[n2 + 2] == b[n + 2]
+    assert b2[n2 + 3] == b[n + 3]
+    assert b2[n2 + 4] == b[n + 4]
+    assert b2[n2 + 5] == b[n + 5]
+    assert b2[n2 + 6] == b[n + 6]
+    assert b2[n2 + 7] == b[n + 7]
+    assert b2[n2 + 8] == b[n + 8]
+    assert b2[n2 + 9] == b[n + 9]
+    assert b2[n2 + 10] == b[n + 10]
+    assert b2[n2 + 11] == b[n + 11]
+    assert b2[n2 + 12] == b[n + 12]
+    assert b2[n2 + 13] == b[n + 13]
+    assert b2[n2 + 14] == b[n + 14]
+    assert b2[n2 + 15] == b[n + 15]
+    assert b2[n2 + 16] == b[n + 16]
+    assert b2[n2 + 17] == b[n + 17]
+    assert b2[n2 + 18] == b[n + 18]
+    assert b2[n2 + 19] == b[n + 19]
 ''', properties=["C05"], params={"x": "obj:BloomFilter", "y": "obj:BloomFilter"},
       requires=["inv_bloom_mem(x)", "inv_bloom_mem(y)", "0 <= x._est_elements < 2**64 and 0 <= x._els_added < 2**64",
                 ("same_observable_state", "y._est_elements == x._est_elements and y._els_added == x._els_added and "
